@@ -131,7 +131,8 @@ Do(s, code) ==
                                              !.base = nb, !.row = nb, !.col = code.indent + 1, !.pen = pen, !.fresh = FALSE]
                               ELSE [s EXCEPT !.row = code.row, !.col = code.indent + 1, !.pen = pen, !.fresh = FALSE]
     [] code.k = "MID" -> IF s.mode = "none" THEN s
-                         ELSE LET s1 == [s EXCEPT !.pen = [fg |-> code.fg, ul |-> code.ul, it |-> code.it]] IN
+                         \* (h)(1)(ii): the italics mid-row code keeps the colour, a colour mid-row code turns italics off
+                         ELSE LET s1 == [s EXCEPT !.pen = [fg |-> IF code.it THEN s.pen.fg ELSE code.fg, ul |-> code.ul, it |-> code.it]] IN
                               Put(s1, Glyph(s1, 32))
     [] code.k = "SPC" -> IF s.mode = "none" THEN s ELSE Put(s, Glyph(s, code.u))
     [] OTHER -> s
